@@ -33,6 +33,7 @@ type duplexHTTPCall struct {
 	httpClient       HTTPClient
 	streamType       StreamType
 	validateResponse func(*http.Response) *Error
+	onRequestSend    func(http.Header)
 
 	// We'll use a pipe as the request body. We hand the read side of the pipe to
 	// net/http, and we write to the write side (naturally). The two ends are
@@ -237,12 +238,22 @@ func (d *duplexHTTPCall) SetValidateResponse(validate func(*http.Response) *Erro
 	d.validateResponse = validate
 }
 
+// SetOnRequestSend sets a function that sees the request headers once, right
+// before the request is sent: on the first Write or CloseWrite, which may be
+// long after the call was created.
+func (d *duplexHTTPCall) SetOnRequestSend(onRequestSend func(http.Header)) {
+	d.onRequestSend = onRequestSend
+}
+
 func (d *duplexHTTPCall) BlockUntilResponseReady() {
 	<-d.responseReady
 }
 
 func (d *duplexHTTPCall) ensureRequestMade() {
 	d.sendRequestOnce.Do(func() {
+		if d.onRequestSend != nil {
+			d.onRequestSend(d.request.Header)
+		}
 		go d.makeRequest()
 	})
 }
